@@ -76,6 +76,12 @@ def gen_pars(fam, rng, n):
         vals = [float(x) for x in np.round(r.random(k) * 5 + 0.1, 1)]
         edges = np.cumsum(np.round(r.random(k + 1) * 3 + 0.5, 1))
         bins = [float(x) for x in (edges if rng.random() < 0.5 else edges[:-1])]
+        if rng.random() < 0.4:
+            # built from data: the bin weights are the COUNTS of the data in the (possibly unequal) bins
+            data = [float(x) for x in np.round(r.gamma(2.0, 3.0, rng.randint(30, 200)), 2)]
+            how = rng.random()
+            b = [float(x) for x in np.concatenate([[0.0], np.cumsum(np.round(r.random(k + 1) * 6 + 0.3, 1))])] if how < 0.6 else (rng.randint(3, 8) if how < 0.8 else None)
+            return dict(data=data, bins=b), {}
         return dict(values=vals, bins=bins), {}
     raise KeyError(fam)
 
@@ -215,7 +221,12 @@ def correspond(ctx):
             ms, ss_ = np.broadcast_arrays(ms, ss_)
             ml = [f'lognorm_ex {bits(m)} {bits(s)}' for m, s in zip(ms, ss_)]
         elif fam == 'histogram':
-            ml = [f"hist {c03.lst(c['spars']['values'], c03.fr)} {c03.lst(c['spars']['bins'], c03.fr)}"]
+            sp = c['spars']
+            if 'data' in sp:   # the documented meaning of data=: counts of the data per bin (np.histogram), then as for values=
+                cnt, edg = np.histogram(np.asarray(sp['data']), **({'bins': sp['bins']} if sp.get('bins') is not None else {}))
+                ml = [f"hist {c03.lst(cnt.astype(float), c03.fr)} {c03.lst(edg, c03.fr)}"]
+            else:
+                ml = [f"hist {c03.lst(sp['values'], c03.fr)} {c03.lst(sp['bins'], c03.fr)}"]
         plan.append(dict(c=c, off=len(lines), nml=len(ml)))
         lines += ml
     out = ctx.drive(DRIVER, lines) if lines else []
@@ -346,48 +357,80 @@ def unit_len(ctx):
     return {k: Fraction(v) for k, v in f.items()}
 
 
+TIMEKEYS = dict(normal=['loc', 'scale'], expon=['scale'], uniform=['low', 'high'], lognorm_ex=['mean', 'std'], constant=['v'],
+                weibull=['scale', 'loc'], gamma=['scale', 'loc'], randint=['low', 'high'])
+
+
+def timepar_case(sc):
+    """ run one time-wrapped scenario on the real code: (scaled variates, raw variates, float32?) """
+    import starsim as ss
+    fam, kind, u1, u2, dt2 = sc['fam'], sc['kind'], sc['u1'], sc['u2'], sc['dt2']
+    W = (lambda v: getattr(ss, kind)(v, unit=u1, parent_unit=u2, parent_dt=dt2).init())
+    sp = sc['sp']; extra = sc.get('extra', {})
+    slots = np.arange(sc['n']); req = sc['req']
+    wrapped = {k: (W(v) if k in TIMEKEYS[fam] else v) for k, v in sp.items()}
+    d = getattr(ss, fam)(**wrapped, **extra); d.init(trace=sc['tr'], seed=1, sim=c03.Sim0(slots), slots=slots); d.jump_dt(ti=1)
+    raw = getattr(ss, fam)(**sp, **extra); raw.init(trace=sc['tr'], seed=1, sim=c03.Sim0(slots), slots=slots); raw.jump_dt(ti=1)
+    a0 = np.asarray(d.rvs(ss.uids(req))); f32 = a0.dtype == np.float32
+    return a0.astype(float), np.asarray(raw.rvs(ss.uids(req)), dtype=float), bool(f32)
+
+
+def timepar_oracle(sc, ul=None):
+    """ the property's clause on the real code alone: variates = raw variates x (or /) exactly the conversion factor """
+    ul = ul or dict(day=Fraction(1), week=Fraction(7), month=Fraction(487, 16), year=Fraction(1461, 4))
+    a, b, f32 = timepar_case(sc)
+    factor = float((Fraction(1) / Fraction(str(sc['dt2']))) * (Fraction(ul[sc['u1']]) / Fraction(ul[sc['u2']])))
+    exp = b * factor if sc['kind'] == 'dur' else b / factor
+    ok = np.allclose(a, exp, rtol=1e-6 if f32 else 1e-12, atol=0)
+    if not ok:
+        return (f"ss.{sc['fam']} with ss.{sc['kind']}-wrapped parameters ({sc['u1']} in steps of {sc['dt2']} {sc['u2']}): variates {a[:3]} are not the unwrapped "
+                f"variates {b[:3]} {'times' if sc['kind'] == 'dur' else 'divided by'} the conversion factor {factor:.6g} (= {exp[:3]})")
+    return None
+
+
 def correspond_timepars(ctx):
     """ (3) a time-wrapped parameter scales the variates by exactly the unit conversion factor """
-    import starsim as ss
     rng = ctx.rng
     ul = unit_len(ctx)
     units = ['day', 'week', 'month', 'year']
     lines = []; plan = []
     for _ in range(ctx.budget(40, 300)):
-        fam = rng.choice(['normal', 'expon', 'uniform', 'lognorm_ex', 'constant', 'weibull', 'gamma'])
+        fam = rng.choice(['normal', 'expon', 'uniform', 'lognorm_ex', 'constant', 'weibull', 'gamma', 'constant', 'randint'])
         kind = rng.choice(['dur', 'dur', 'rate'])
         u1, u2 = rng.choice(units), rng.choice(units)
         dt2 = rng.choice([1.0, 0.5, 0.25, 2.0, 7.0, 0.1])
-        factor = (Fraction(1) / Fraction(dt2)) * (ul[u1] / ul[u2])
-        W = (lambda v: getattr(ss, kind)(v, unit=u1, parent_unit=u2, parent_dt=dt2).init())
+        factor = (Fraction(1) / Fraction(str(dt2))) * (ul[u1] / ul[u2])
         sp, _ = gen_pars(fam, rng, 4)
+        extra = {}
+        if fam == 'constant' and rng.random() < 0.6:
+            sp = dict(v=rng.randint(1, 40))             # an integer literal: the raw variates are integer-typed
+        if fam == 'randint':
+            extra = dict(allow_time=True)                 # integer-typed raw variates, time-wrapped bounds
         n = rng.randint(3, 12)
-        slots = np.arange(n); req = sorted(rng.sample(range(n), rng.randint(1, n)))
-        timekeys = dict(normal=['loc', 'scale'], expon=['scale'], uniform=['low', 'high'], lognorm_ex=['mean', 'std'], constant=['v'],
-                        weibull=['scale', 'loc'], gamma=['scale', 'loc'])[fam]
-        wrapped = {k: (W(v) if k in timekeys else v) for k, v in sp.items()}
-        tr = 'tp_%d' % rng.randint(0, 10**6)
+        sc = dict(fam=fam, kind=kind, u1=u1, u2=u2, dt2=dt2, sp=sp, extra=extra, n=n, req=sorted(rng.sample(range(n), rng.randint(1, n))),
+                  tr='tp_%d' % rng.randint(0, 10**6))
         try:
-            d = getattr(ss, fam)(**wrapped); d.init(trace=tr, seed=1, sim=c03.Sim0(slots), slots=slots); d.jump_dt(ti=1)
-            raw = getattr(ss, fam)(**sp); raw.init(trace=tr, seed=1, sim=c03.Sim0(slots), slots=slots); raw.jump_dt(ti=1)
-            a0 = np.asarray(d.rvs(ss.uids(req))); f32 = a0.dtype == np.float32
-            a = a0.astype(float); b = np.asarray(raw.rvs(ss.uids(req)), dtype=float)
+            a, b, f32 = timepar_case(sc)
         except Exception as e:
             ctx.broke('correspondence', 'C05.timepar', f'ss.{fam} with ss.{kind} parameters ({u1} in {u2}, dt={dt2}) raised {type(e).__name__}: {e}'); return
         f = float(factor)
         lines += [f'{kind} {bits(x)} {bits(f)}' for x in b]
-        plan.append(dict(fam=fam, kind=kind, u1=u1, u2=u2, dt2=dt2, a=a, b=b, n=len(b), factor=str(factor), f32=bool(f32)))
+        plan.append(dict(sc=sc, a=a, b=b, n=len(b), factor=str(factor), f32=f32))
     out = ctx.drive(DRIVER, lines)
     i = 0
     for p in plan:
+        sc = p['sc']
         exp = np.array([unbits(x) for x in out[i:i + p['n']]]); i += p['n']
-        ctx.case(('timepar', p['fam'], p['kind'], p['u1'], p['u2'], p['dt2']), True,
-                 sample=dict(kind='timepar-scaling', family=p['fam'], wrapper=p['kind'], unit=p['u1'], parent_unit=p['u2'], parent_dt=p['dt2'], factor=p['factor']))
+        ctx.case(('timepar', sc['fam'], sc['kind'], sc['u1'], sc['u2'], sc['dt2']), True,
+                 sample=dict(kind='timepar-scaling', family=sc['fam'], wrapper=sc['kind'], unit=sc['u1'], parent_unit=sc['u2'], parent_dt=sc['dt2'], factor=p['factor']))
         # (float32 families are scaled in float32 by the code; the model evaluates in float64)
         ok = np.allclose(p['a'], exp, rtol=1e-6, atol=0) if p['f32'] else close(p['a'], exp, 8)
         if not ok:
-            ctx.broke('correspondence', 'C05.timepar', f"ss.{p['fam']} with ss.{p['kind']} parameters ({p['u1']} in {p['u2']}, dt={p['dt2']}): variates {p['a'][:3]} are not the raw variates {p['b'][:3]} scaled by the conversion factor {p['factor']} ({exp[:3]})",
-                      data={k: (v.tolist() if hasattr(v, 'tolist') else v) for k, v in p.items()})
+            ctx.broke('correspondence', 'C05.timepar', f"ss.{sc['fam']} with ss.{sc['kind']} parameters ({sc['u1']} in {sc['u2']}, dt={sc['dt2']}): variates {p['a'][:3]} are not the raw variates {p['b'][:3]} scaled by the conversion factor {p['factor']} ({exp[:3]})",
+                      data=dict(sc=sc))
+            msg = timepar_oracle(sc, ul)
+            if msg:
+                ctx.fail(dict(oracle='timepar-scaling', family=sc['fam'], wrapper=sc['kind']), msg, dict(kind='timepar', sc=sc))
             return
 
 
@@ -596,6 +639,8 @@ def replay(ctx, data):
     if k == 'randint_ppf':
         d = ss.randint(low=np.array([data['low']]), high=np.array([data['high']])); d.init(trace='f', seed=0, sim=c03.Sim0(np.arange(1)), slots=np.arange(1)); d._pars = d.pars
         g = int(d.ppf(np.array([data['u']]))[0]); return not (data['low'] <= g < data['high'])
+    if k == 'timepar':
+        return timepar_oracle(data['sc']) is not None
     if k == 'bern_tp':
         return bern_tp_case(**{kk: data[kk] for kk in ('mode', 'u1', 'u2', 'dt2', 'n', 'tabseed')})[0] is not None
     if k == 'mono':
